@@ -144,6 +144,16 @@ CHECKS = {
   note='Trusted: specs/predpp.json and specs/nmtran_ops.json (independent transcriptions of the NONMEM guides); sympy '
        'for rational-function equality of extracted expressions.',
   ref='DESIGN.md §2 C01'),
+ 'C02': dict(
+  technique='sibling-table agreement: writer PK ratios and renaming dictionaries extracted from update.py (finite '
+            'evaluation of the if-chains over all (from ADVAN, ADVAN, TRANS) triples) versus the reader tables of C01 '
+            '(edge unification with sympy); printer -> grammar -> interpreter composition on the operator alphabet; '
+            'n-ary / parenthesisation shape of the printer; numbering-source lint',
+  text='B1-B4 decide that reader, writer and renamer use one PREDPP table, that the printer is a right inverse of the '
+       'parser on all relational/logical operators and prints every operand, and that all numbering sites share one '
+       'order. Semantic equality of generated code after arbitrary transformation sequences is not decided.',
+  note='Trusted: specs/predpp.json; sympy class names of relational operators.',
+  ref='DESIGN.md §2 C02'),
 }
 NA = {}
 
